@@ -29,7 +29,6 @@ import (
 	"fmt"
 	"io"
 	"math/big"
-	"net"
 	"sort"
 	"strings"
 	"sync"
@@ -73,7 +72,9 @@ type sigEnt struct {
 	origin string // "package" | "reference" | "security key"
 }
 
-func toSSH(s sr.Sig) *ssh.Signature { return &ssh.Signature{Format: s.Format, Blob: s.Blob, Rest: s.Rest} }
+func toSSH(s sr.Sig) *ssh.Signature {
+	return &ssh.Signature{Format: s.Format, Blob: s.Blob, Rest: s.Rest}
+}
 
 func mustPub(c *vf.Ctx, blob []byte) ssh.PublicKey {
 	p, err := ssh.ParsePublicKey(blob)
@@ -172,7 +173,9 @@ func buildKeys(c *vf.Ctx) ([]*keyEnt, ssh.Signer, ed25519.PrivateKey) {
 		ep := detkeys.ECDSA(elliptic.P256(), seed+"sk"+l)
 		addSK("sk-ecdsa-"+l, sr.FromSKECDSA(&ep.PublicKey, "ssh:"), func(fl byte, ct uint32, d []byte) sr.Sig { return sr.SignSKECDSA(rand.Reader, ep, "ssh:", fl, ct, d) })
 		if l == "A" {
-			addSK("sk-ecdsa-A-otherapp", sr.FromSKECDSA(&ep.PublicKey, "ssh:other"), func(fl byte, ct uint32, d []byte) sr.Sig { return sr.SignSKECDSA(rand.Reader, ep, "ssh:other", fl, ct, d) })
+			addSK("sk-ecdsa-A-otherapp", sr.FromSKECDSA(&ep.PublicKey, "ssh:other"), func(fl byte, ct uint32, d []byte) sr.Sig {
+				return sr.SignSKECDSA(rand.Reader, ep, "ssh:other", fl, ct, d)
+			})
 		}
 		dp := detkeys.Ed25519(seed + "sk" + l)
 		addSK("sk-ed25519-"+l, sr.FromSKEd25519(dp.Public().(ed25519.PublicKey), "ssh:"), func(fl byte, ct uint32, d []byte) sr.Sig { return sr.SignSKEd25519(dp, "ssh:", fl, ct, d) })
@@ -614,7 +617,7 @@ type srvCfg struct {
 }
 
 func handshake(hostSigner ssh.Signer, cb func(ssh.ConnMetadata, ssh.PublicKey) (*ssh.Permissions, error), signer ssh.Signer) (srvOK bool, srvErr, cliErr error, timedOut bool) {
-	a, b := net.Pipe()
+	a, b := bufPipe()
 	defer a.Close()
 	defer b.Close()
 	scfg := &ssh.ServerConfig{PublicKeyCallback: cb, MaxAuthTries: 2}
